@@ -59,12 +59,15 @@ def to_opb_file(formula, fileorname=None,
         for field in formula.header:
             tmp = "* {}: {}\n".format(field, formula.header[field])
             tmp = tmp.encode('ascii', errors='replace').decode('ascii')
+            # a field may span several lines: each one must be a comment
+            tmp = "\n* ".join(tmp[:-1].splitlines()) + "\n"
             output.write(tmp)
         output.write("*\n")
 
     if export_varnames:
         for varid, label in enumerate(formula.all_variable_labels(), start=1):
-            output.write("* varname x{0} {1}\n".format(varid, label))
+            tmp = "* varname x{0} {1}".format(varid, label)
+            output.write("\n* ".join(tmp.splitlines()) + "\n")
         output.write("*\n")
 
     # Clauses
